@@ -716,7 +716,7 @@ func init() {
 			// refcount: references taken after RemoveKey are the only live ones
 			{"config rc nodelay noretry", "setctx 1 norestart", "addref 1", "addref 1", "rcremove 1", "getkeys", "addref 1", "release 2", "getkeys", "release 0", "release 1", "addref 1", "getkeysdata", "release 3", "getkeys"},
 			// D17: ResetRoutine whose constructor returns a nil Routine forgets the exit channel of the routine it replaces
-			{"config plain nodelay noretry", "setctx 1 norestart", "setkey 1 start", "settle", "nilnext 1", "reset 1", "reset 1", "settle", "probeall", "ret 0 ok", "settle", "retk 1 ok", "advance"},
+			{"config plain nodelay noretry", "setctx 1 norestart", "setkey 1 start", "advance", "nilnext 1", "reset 1", "reset 1", "advance", "probeall", "ret 0 ok", "settle", "retk 1 ok", "advance"},
 			// a nil routine is never started; the key behaves like any other
 			{"config plain delay noretry", "setctx 1 norestart", "nilnext 1", "setkey 1 start", "setkey 2 start", "getkeysdata", "restart 1", "setctx 2 restart", "removekey 1", "setkey 1 start", "advance", "getkeysdata", "removekey 1", "advance", "getkeys", "setkey 1 start", "advance", "probeall"},
 			// a routine that returned nil is still subject to the release delay
